@@ -72,6 +72,16 @@ CHECKS = {
              "Melody/multipitch/notes: joint octave scaling (bit-identical), 2^(j/12) (1e-9), estimate-only octave (chroma), "
              "sign flip, with non-default base_frequency/cent_tolerance; outcome pairs judged by Trace_Rel.",
         ref="4/C09"),
+    "C12": dict(
+        technique="TLA+ stage machine of chord.evaluate (ChordEval.tla) with a Split action, model-checked and replayed stage "
+                  "by stage; rescale/split relations judged by a TLA+ trace spec",
+        text="MC_C12 runs every pair of small chord annotations through the stage machine Adjust -> MergeChords x2 -> "
+             "MergeLabeled -> Durations -> Compare x12 -> WeightedAccuracy -> Segmentation, then cuts one interval (either "
+             "side, every interior lattice point) and re-evaluates: TLC checks no score changes, ranges, conserved duration. "
+             "Every exported state is replayed stage by stage into the public functions and into chord.evaluate. "
+             "weighted_accuracy rescaling/all-ones/all-zeros and split invariance (fine, off-grid cuts) of chord.evaluate, the "
+             "six frame-based segment scores and hierarchy.lmeasure are judged by Trace_Rel.",
+        ref="4/C12"),
 }
 
 PENDING = "check not built yet (build in progress; see DESIGN.md section 10)"
